@@ -25,6 +25,9 @@ TRUSTED = [
     "extractor harness/translate/c02.py (Python ast -> Gen/C02_shape.v): a run builds a fresh PipelineRunner whose status map is all 'pending' and whose "
     "state is empty, and neither Pipeline.run/run_all nor the runner assign to the pipeline; status dispatch order of PipelineRunner.run; "
     "PipelineBuilder.connect/default_connection wire a Node by name and make a literal of anything else",
+    "builder edits clear_inputs / replace_component are modelled by hand (EClear, EReplace: explicit connections of the old component kept unless overridden), "
+    "tied to the code by the builder-history correspondence cases; calls that read the builder (config_hash, build_config, meta, build, validate, clone) are "
+    "no edits in the model",
     "components are modelled as deterministic interaction trees; a body may catch the exception of a lazy input (TryForce) -- at_most_once, "
     "failed_node_not_retried, only_if_needed(i) cover such bodies, the theorems relating the run to the memo-free evaluation assume catch_free; "
     "graphlib.TopologicalSorter (cycle detection) and typing.get_type_hints are library contracts exercised by the correspondence runs, not verified",
@@ -36,7 +39,10 @@ ASSUMPTIONS = [
     "declaration_order_irrelevant, run_fuel_irrelevant, exception_transparent assume that no body catches an exception raised while forcing a lazy input "
     "(catch_free); at_most_once, failed_node_not_retried, only_if_needed(i) hold for catching bodies too",
     "theorems about results assume the resolved wiring is acyclic (a rank function exists) and the recursion bound exceeds the depth of the graph",
-    "values are ints (bools included), non-int objects (str, float, list, dict) or None; parameter annotations are int, int | None, Lazy[int], Lazy[int | None], an unconstrained TypeVar, or absent",
+    "values are ints, bools (an int for the run-time type check, but told apart from the == int by every body), other objects (str, float, list, dict, tuple, "
+    "NumPy scalar, Decimal, Fraction, complex, bytes, frozenset; distinguished down to the types of their parts), float64 / int64 arrays or None; parameter "
+    "annotations are int, bool, ndarray[dtype], each also | None or Lazy[..], an unconstrained TypeVar, or absent",
+    "builder histories: replace_component is exercised with a replacement that has the same parameter names (annotations and body differ)",
 ]
 RULE = ("structured generator: 1-4 inputs (int / int|None / untyped; supplied, absent or ill-typed per run; untyped ones also carry strs and float64 / "
         "int64 arrays), 0-3 literals, 1-10 components of arity 0-4 declared in random order and wired by connect() to earlier or later-declared nodes, "
@@ -50,7 +56,15 @@ RULE = ("structured generator: 1-4 inputs (int / int|None / untyped; supplied, a
         "builder HISTORY: the same PipelineBuilder is edited (default connections changed or added, connect to a node or to a bare value, alias; optionally config_hash()/"
         "build_config() first) and built again 1-3 more times, every built pipeline compared with the model of the builder state at that moment; every "
         "4th base graph is repeated with a raising component at each position in turn; every 8th case is malformed (cycle via connect, via a default "
-        "connection, or injected into a built pipeline). non-trivial = in some build, at least 3 components executed in a run, a node consumed by two "
+        "connection, or injected into a built pipeline). Round 4: in every other graph with >= 2 literals the literal values of the one builder are drawn from "
+        "a family of values that are == and hash-equal but of different type (1 / True / 1.0 / np.int64(1) / np.float64(1.0) / np.bool_(True) / Decimal(1) / "
+        "Fraction(1) / 1+0j; 0 / False / 0.0 / -0.0 / np.int64(0); 2 / 2.0; (1,2) / (1.0,2.0) / (True,2); frozensets, lists, dicts of those; 'x y' / b'x y'), "
+        "wired in random declaration order to parameters annotated int / bool / none / Lazy[..] whose bodies tell the types apart, later history edits add "
+        "further members of the family through connect() and default_connection(); history edits also include clear_inputs, replace_component, connect "
+        "through an alias lookup or by component name, carrying on with clone(), and calls that only read the builder (config_hash, build_config, meta, build, "
+        "validate, clone) between the edits; every third build of a history is preceded by an edit that CLOSES a cycle (by connect, default_connection, "
+        "alias + connect, replace_component, or clear_inputs letting a default apply) after an earlier successful build, and the next stage usually opens it "
+        "again. non-trivial = in some build, at least 3 components executed in a run, a node consumed by two "
         "executed consumers or requested twice, and at least one of: lazy input forced, fallback taken, component skipped, error; distinct = by hash of the case")
 
 PNAMES = "abcde"
@@ -67,9 +81,15 @@ ANNS = {  # annotation -> (lazy, typed, nullable, python text, kind)
     "ivec": (False, True, False, "_IV", "TIntVec"),
     "lazyfvec": (True, True, False, "Lazy[_FV]", "TFloatVec"),
     "lazyivec": (True, True, False, "Lazy[_IV]", "TIntVec"),
+    # bool: accepts True / False only (an int that is not a bool is refused) -- sensitive to the TYPE of an == value
+    "bool": (False, True, False, "bool", "TBool"),
+    "boolopt": (False, True, True, "bool | None", "TBool"),
+    "lazybool": (True, True, False, "Lazy[bool]", "TBool"),
 }
 VEC_ANNS = [("fvec", 4), ("fvecopt", 2), ("ivec", 3), ("lazyfvec", 2), ("lazyivec", 1)]
-KIND_TAG = {"TInt": "i", "TFloatVec": "f", "TIntVec": "a"}
+KIND_TAG = {"TInt": ("i", "b"), "TFloatVec": ("f",), "TIntVec": ("a",), "TBool": ("b",)}
+# annotations for a parameter fed by a value whose exact type matters
+TYPE_SENSITIVE_ANNS = [("any", 5), ("int", 2), ("opt", 1), ("bool", 1), ("boolopt", 1), ("lazyany", 1), ("lazybool", 1), ("lazy", 1)]
 # classes of the exceptions component bodies raise (chosen by the exception number)
 N_EXC = 8
 
@@ -98,12 +118,62 @@ def gen_anyval(rng, arrays):
     """value for an untyped input"""
     if arrays and rng.chance(2, 3):
         return [rng.choice(["f", "a"]), rng.randint(0, 9)]
-    return [rng.weighted([("i", 6), ("s", 1), ("f", 1), ("a", 1)]), rng.randint(0, 9)]
+    k = rng.weighted([("i", 6), ("s", 1), ("f", 1), ("a", 1), ("b", 1)])
+    return [k, rng.randint(0, 9) if k != "b" else rng.below(2)]
 
 
 # values wired as literals that are not ints, "s<k>" strings or arrays: every other JSON-ish type
-JTABLE = [1.5, [1, 2], {"k": 1}, "", [], 2.0, "x y", {"n0": [None, 1]}]
+N_JT = 29
+
+
+class _JTable:
+    """JTABLE[k]: the k-th 'other object' (neither int, bool, "s<k>"/"n<k>" str nor array).  Entries 8.. are objects that
+    are == (and, where hashable, hash-equal) to an int, a bool or to one another while being of a different type."""
+    _t = None
+
+    def _get(self):
+        if self._t is None:
+            import numpy as np
+            from decimal import Decimal
+            from fractions import Fraction
+            self._t = [1.5, [1, 2], {"k": 1}, "", [], 2.0, "x y", {"n0": [None, 1]},
+                       1.0, 0.0, -0.0, (1, 2), (1.0, 2.0), (True, 2), np.int64(1), np.float64(1.0), np.bool_(True),
+                       Decimal(1), Fraction(1, 1), complex(1, 0), b"x y", frozenset([1]), frozenset([True]),
+                       [1.0, 2], [True, 2], {"k": True}, {"k": 1.0}, np.int64(0), np.float64(0.0)]
+            assert len(self._t) == N_JT
+        return self._t
+
+    def __getitem__(self, k):
+        return self._get()[k]
+
+    def __iter__(self):
+        return iter(self._get())
+
+    def __len__(self):
+        return N_JT
+
+
+JTABLE = _JTable()
 N_OFF, J_OFF = 10000, 20000       # VStr numbers of the strings "n<k>" (spelled like node names / aliases) and of JTABLE[k]
+# families of values that are pairwise == (hashable ones also hash-equal) but differ in type / identity: a consumer
+# must get the very value wired to it, whichever of them was declared first
+EQ_FAMILIES = [
+    ([["i", 1], ["b", 1], ["j", 8], ["j", 14], ["j", 15], ["j", 16], ["j", 17], ["j", 18], ["j", 19]], 6),
+    ([["i", 0], ["b", 0], ["j", 9], ["j", 10], ["j", 27], ["j", 28]], 5),
+    ([["i", 2], ["j", 5]], 1),
+    ([["j", 11], ["j", 12], ["j", 13]], 2),           # tuples
+    ([["j", 21], ["j", 22]], 1),                      # frozensets
+    ([["j", 1], ["j", 23], ["j", 24]], 1),            # lists (unhashable)
+    ([["j", 2], ["j", 25], ["j", 26]], 1),            # dicts (unhashable)
+    ([["j", 6], ["j", 20]], 1),                       # str / bytes spelled alike (not ==)
+]
+
+
+def family_of(v):
+    for fam, _ in EQ_FAMILIES:
+        if v in fam:
+            return fam
+    return None
 
 
 def gen_inline_val(rng, name_ids, taken):
@@ -116,7 +186,7 @@ def gen_inline_val(rng, name_ids, taken):
         elif kind == "n":
             v = ["n", rng.choice(name_ids)]
         elif kind == "j":
-            v = ["j", rng.below(len(JTABLE))]
+            v = ["j", rng.below(N_JT)]
         elif kind == "b":
             v = ["b", rng.below(2)]
         else:
@@ -178,16 +248,25 @@ def gen_graph(rng, malformed, catching=False):
     arrays = rng.chance(1, 4)
     n_in = rng.randint(1, 4)
     n_lit = rng.weighted([(0, 3), (1, 3), (2, 2), (3, 1)])
-    n_inl = rng.weighted([(0, 5), (1, 3), (2, 2), (3, 1)])
+    n_inl = rng.weighted([(0, 5), (1, 3), (2, 3), (3, 2)])
+    # several values of ONE builder that are == (and hash-equal) but of different type: 1 / True / 1.0 / np.int64(1) ...
+    fam = rng.sample(rng.weighted(EQ_FAMILIES), 10) if n_inl + n_lit >= 2 and rng.chance(1, 2) else []
     n_comp = rng.weighted([(1, 1), (2, 2), (3, 3), (4, 3), (5, 3), (6, 2), (8, 2), (10, 1)])
     nodes = []          # in hidden topological order
     for _ in range(n_in):
         t = rng.weighted([("int", 4), ("opt", 4), ("any", 4 if arrays else 1)])
         nodes.append({"kind": "input", "typed": t != "any", "nullable": t != "int"})
+    fam_nodes = []
     for _ in range(n_lit):
         nodes.append({"kind": "literal", "val": gen_val(rng, 1)})
+        if fam and rng.chance(1, 3):
+            nodes[-1]["val"] = fam.pop()
+            fam_nodes.append(len(nodes) - 1)
     for _ in range(n_inl):
         nodes.append({"kind": "inline", "val": None})       # value chosen below, once the names are known
+        if fam:
+            nodes[-1]["val"] = fam.pop()
+            fam_nodes.append(len(nodes) - 1)
     base = len(nodes)
     for k in range(n_comp):
         here = len(nodes)
@@ -209,6 +288,9 @@ def gen_graph(rng, malformed, catching=False):
                 conn = rng.randint(max(base, here - 4), here - 1)
             if conn is not None and nodes[conn]["kind"] == "inline" and rng.chance(2, 3):
                 ann = rng.weighted([("any", 4), ("lazyany", 1)])     # mostly let a literal of any type through
+            if fam_nodes and rng.chance(2, 5):
+                conn = rng.choice(fam_nodes)
+                ann = rng.weighted(TYPE_SENSITIVE_ANNS)
             params.append({"name": pn, "conn": conn, "ann": ann})
         kind = rng.weighted([("lin", 12), ("none", 1), ("str", 1), ("arrf", 6 if arrays else 0), ("arri", 5 if arrays else 0)])
         nodes.append({"kind": "comp", "params": params, "body": gen_body(rng, params, kind, catching)})
@@ -272,9 +354,9 @@ def gen_graph(rng, malformed, catching=False):
     # literal values written in the wiring calls: strings equal to names of nodes declared earlier or later,
     # to aliases, to no node; and the other JSON-ish types
     name_ids = named * 2 + [a for a, _ in aliases] * 2 + [n, n + 1, 100 + len(aliases)]
-    taken = []
+    taken = [nd["val"] for nd in out if nd["kind"] == "inline" and nd["val"] is not None]
     for nd in out:
-        if nd["kind"] == "inline":
+        if nd["kind"] == "inline" and nd["val"] is None:
             nd["val"] = gen_inline_val(rng, name_ids, taken)
             taken.append(nd["val"])
     return {"nodes": out, "defaults": [[pn, ident[t]] for pn, t in defaults], "aliases": aliases,
@@ -339,8 +421,17 @@ def apply_edits(state, edits):
                     p["conn"] = e[3]
         elif e[0] == "addlit":      # a value written in a connect() call: the builder makes a literal node of it
             st["nodes"].append({"kind": "inline", "val": e[2], "id": e[1]})
-        else:
+        elif e[0] == "clear":       # clear_inputs(c): no explicit connection left, the default connections apply again
+            for p in st["nodes"][e[1]]["params"]:
+                p["conn"] = None
+        elif e[0] == "replace":     # replace_component(c, comp, **inputs): explicit connections kept unless overridden
+            old = {p["name"]: p["conn"] for p in st["nodes"][e[1]]["params"]}
+            st["nodes"][e[1]] = {"kind": "comp", "id": e[1], "body": copy.deepcopy(e[3]),
+                                 "params": [{**p, "conn": p["conn"] if p["conn"] is not None else old.get(p["name"])} for p in e[2]]}
+        elif e[0] == "alias":
             st["aliases"] = [[e[1], e[2]]] + st["aliases"]
+        else:
+            assert e[0] in ("call", "clone"), e      # reading the builder (hash, config, meta, build, clone) changes nothing
     return st
 
 
@@ -355,7 +446,77 @@ def _has_try(b):
 
 
 def has_try(case):
-    return any(nd["kind"] == "comp" and _has_try(nd["body"]) for nd in case["nodes"])
+    return (any(nd["kind"] == "comp" and _has_try(nd["body"]) for nd in case["nodes"])
+            or any(e[0] == "replace" and _has_try(e[3]) for stg in case.get("stages", []) for e in stg["edits"]))
+
+
+def _dependents(state, c):
+    """nodes whose value depends on c under the resolved wiring of the state (c included)"""
+    w = _wiring(state, with_inject=False)
+    out, changed = {c}, True
+    while changed:
+        changed = False
+        for n, ps in w.items():
+            if n not in out and any(s in out for s, *_ in ps):
+                out.add(n)
+                changed = True
+    return sorted(out)
+
+
+CALLS = ["hash", "config", "meta", "build", "validate", "clone"]
+CLOSERS = [("connect", 3), ("default", 5), ("alias", 2), ("replace", 2), ("clear", 3)]
+
+
+def gen_replacement(rng, nd, catching=False):
+    """another component for the same node: same parameter names, annotations and body chosen afresh"""
+    params = [{"name": p["name"], "conn": None,
+               "ann": p["ann"] if rng.chance(1, 2) else rng.weighted([("int", 5), ("opt", 4), ("any", 3), ("lazy", 3), ("lazyopt", 2), ("lazyany", 1)])}
+              for p in nd["params"]]
+    return params, gen_body(rng, params, rng.weighted([("lin", 12), ("none", 1), ("str", 1)]), catching)
+
+
+def gen_closing(rng, state):
+    """Edits that CLOSE a cycle in the wiring of a builder that has been built before, one kind of edit per call,
+    and the edits that open it again.  Returns (kind, edits, repair) or None."""
+    comps = [nd for nd in state["nodes"] if nd["kind"] == "comp" and nd["params"]]
+    leaves = [nd["id"] for nd in state["nodes"] if nd["kind"] in ("input", "literal")]
+    if not comps or not leaves:
+        return None
+    kind = rng.weighted(CLOSERS)
+    nd = rng.choice(comps)
+    c = nd["id"]
+    p = rng.choice(nd["params"])
+    dflt = dict((pn, t) for pn, t in state["defaults"])
+    if kind == "default":
+        free = [(x, q) for x in comps for q in x["params"] if q["conn"] is None]
+        if free:
+            nd, p = rng.choice(free)
+            c = nd["id"]
+    elif kind == "clear":
+        held = [(x, q) for x in comps for q in x["params"] if q["conn"] is not None and dflt.get(q["name"]) in _dependents(state, x["id"])]
+        if held:
+            nd, p = rng.choice(held)
+            c = nd["id"]
+    t = rng.choice(_dependents(state, c))
+    pn = p["name"]
+    leaf = rng.choice(leaves)
+    if kind == "connect":
+        return kind, [["connect", c, pn, t]], [["connect", c, pn, leaf]]
+    if kind == "alias":
+        a = 100 + len(state["aliases"])
+        return kind, [["alias", a, t], ["connect", c, pn, t, a]], [["connect", c, pn, leaf]]
+    if kind == "replace":
+        params, body = gen_replacement(rng, nd)
+        for q in params:
+            if q["name"] == pn:
+                q["conn"] = t
+        return kind, [["replace", c, params, body]], [["connect", c, pn, leaf]]
+    if kind == "default":
+        pre = [] if p["conn"] is None else [["clear", c]]
+        return kind, pre + [["default", pn, t]], [["default", pn, leaf]]
+    # clear_inputs(c) lets a default connection that points downstream of c apply
+    pre = [] if p["conn"] is not None and dflt.get(pn) in _dependents(state, c) else [["default", pn, t], ["call", rng.choice(CALLS[:4])]]
+    return kind, pre + [["clear", c]], [["connect", c, pn, leaf]]
 
 
 def gen_stages(rng, g, malformed):
@@ -363,13 +524,19 @@ def gen_stages(rng, g, malformed):
     stages = []
     state = g
     rank = {i: h for h, i in enumerate(g["depth_order"])}
-    for k in range(rng.weighted([(1, 3), (2, 2), (3, 1)])):
+    repair = None
+    for k in range(rng.weighted([(1, 3), (2, 3), (3, 2)])):
         comps = [nd for nd in state["nodes"] if nd["kind"] == "comp" and nd["params"]]
         leaves = [nd["id"] for nd in state["nodes"] if nd["kind"] in ("input", "literal", "inline")]
         named = [nd["id"] for nd in state["nodes"] if nd["kind"] != "inline"]
         edits = []
-        for _ in range(rng.randint(1, 3)):
-            what = rng.weighted([("default", 5), ("connect", 2), ("alias", 1), ("connect-value", 2)])
+        closing = rng.chance(1, 3)
+        if repair and rng.chance(2, 3):         # open the cycle the previous stage closed
+            edits += repair
+        repair = None
+        for _ in range(rng.randint(1, 3) if not (closing and rng.chance(1, 2)) else 0):
+            what = rng.weighted([("default", 5), ("connect", 2), ("alias", 1), ("connect-value", 2), ("default-value", 2), ("clear", 1),
+                                 ("replace", 1), ("call", 2)])
             if what == "default":
                 used = [d[0] for d in state["defaults"]]
                 unwired = [p["name"] for nd in comps for p in nd["params"] if p["conn"] is None]
@@ -383,27 +550,56 @@ def gen_stages(rng, g, malformed):
                 lower = [i for i in rank if rank[i] < rank[nd["id"]]]
                 if lower:
                     edits.append(["connect", nd["id"], p["name"], rng.choice(lower)])
-            elif what == "connect-value" and comps:
-                # connect(comp, p=<value>): every node and alias of the builder is declared by now
+            elif what in ("connect-value", "default-value") and comps:
+                # connect(comp, p=<value>) / default_connection(p, <value>): every node and alias of the builder is declared by now
                 nd = rng.choice(comps)
                 p = rng.choice(nd["params"])
                 cur = apply_edits(state, edits)
                 inl = {nd2["id"]: nd2["val"] for nd2 in cur["nodes"] if nd2["kind"] == "inline"}
                 name_ids = named * 2 + [a for a, _ in cur["aliases"]] * 3 + [len(cur["nodes"]) + 1]
                 val = gen_inline_val(rng, name_ids, [])
+                # a value == to one the builder already holds, of another type
+                kin = [v for nd2 in cur["nodes"] if nd2["kind"] in ("inline", "literal") and nd2["val"] is not None
+                       for v in (family_of(nd2["val"]) or [])]
+                if rng.chance(1, 2):
+                    val = rng.choice(kin) if kin else rng.choice(rng.weighted(EQ_FAMILIES))
                 same = [i for i, x in inl.items() if x == val]
                 if same:
                     tgt = same[0]
                 else:
                     tgt = len(cur["nodes"])
                     edits.append(["addlit", tgt, val])
-                edits.append(["connect", nd["id"], p["name"], tgt])
+                if what == "connect-value":
+                    edits.append(["connect", nd["id"], p["name"], tgt])
+                else:
+                    edits.append(["default", p["name"], tgt])
             elif what == "alias":
                 a = 100 + len(state["aliases"]) + sum(1 for e in edits if e[0] == "alias")
                 edits.append(["alias", a, rng.choice(named)])
+            elif what == "clear" and comps:
+                edits.append(["clear", rng.choice(comps)["id"]])
+            elif what == "replace" and comps:
+                cur = apply_edits(state, edits)
+                nd = cur["nodes"][rng.choice(comps)["id"]]
+                params, body = gen_replacement(rng, nd, has_try(g))
+                if rng.chance(1, 2):
+                    lower = [i for i in rank if rank[i] < rank[nd["id"]]]
+                    if lower and params:
+                        rng.choice(params)["conn"] = rng.choice(lower)
+                edits.append(["replace", nd["id"], params, body])
+            elif what == "call":
+                edits.append(["call", rng.choice(CALLS)] if rng.chance(4, 5) else ["clone"])
+        info = None
+        if closing:
+            got = gen_closing(rng, apply_edits(state, edits))
+            if got:
+                info, more, repair = got
+                if rng.chance(1, 3):
+                    edits.append(["call", rng.choice(CALLS)])
+                edits += more
         state = apply_edits(state, edits)
         pre = rng.weighted([(None, 3), ("hash", 1), ("config", 1)])
-        stages.append({"edits": edits, "pre": pre, "runs": gen_runs(rng, state)[-2:]})
+        stages.append({"edits": edits, "pre": pre, "runs": gen_runs(rng, state)[-2:], **({"closing": info} if info else {})})
     return stages
 
 
@@ -485,8 +681,10 @@ def pyval(v):
 def jval(x):
     if x is None:
         return None
-    if isinstance(x, int):          # a bool is an int for isinstance and for arithmetic
-        return ["i", int(x)]
+    if type(x) is bool:             # a bool is an int for isinstance, but not the same object as the int == to it
+        return ["b", int(x)]
+    if type(x) is int:
+        return ["i", x]
     if isinstance(x, str) and x[:1] in ("s", "n") and x[1:].isdigit():
         return [x[0], int(x[1:])]
     for k, t in enumerate(JTABLE):
@@ -501,14 +699,30 @@ def jval(x):
 
 
 def same_value(x, y):
-    return type(x) is type(y) and (x == y if not type(x).__name__ == "ndarray" else (x.dtype == y.dtype and x.tolist() == y.tolist()))
+    """the same value down to the types of its parts (1, True and 1.0 are three values; so are 0.0 and -0.0)"""
+    if type(x) is not type(y):
+        return False
+    if isinstance(x, (list, tuple)):
+        return len(x) == len(y) and all(same_value(a, b) for a, b in zip(x, y))
+    if isinstance(x, dict):
+        return x.keys() == y.keys() and all(same_value(x[k], y[k]) for k in x)
+    if isinstance(x, (set, frozenset)):
+        return sorted(f"{type(e).__name__}:{e!r}" for e in x) == sorted(f"{type(e).__name__}:{e!r}" for e in y)
+    if type(x).__name__ == "ndarray":
+        return x.dtype == y.dtype and x.tolist() == y.tolist()
+    if isinstance(x, float):
+        import math
+        return (x != x and y != y) or (x == y and math.copysign(1.0, x) == math.copysign(1.0, y))
+    return bool(x == y)
 
 
 def num(x):
     if x is None:
         return -1
-    if isinstance(x, int):
-        return int(x)
+    if type(x) is bool:             # the bodies tell True from 1
+        return 4000003 + int(x)
+    if type(x) is int:
+        return x
     j = jval(x)
     if j[0] in ("s", "n", "j"):
         return 1000003 + {"s": 0, "n": N_OFF, "j": J_OFF}[j[0]] + j[1]
@@ -682,16 +896,42 @@ def run_impl(case):
     more = []
     state = case
     for stg in case.get("stages", []):
-        state = apply_edits(state, stg["edits"])
         for e in stg["edits"]:
+            byname = (e[1] + len(stg["edits"])) % 2 == 1 if e[0] in ("connect", "clear", "replace") else False
             if e[0] == "default":
                 b.default_connection(PNAMES[e[1]], tgt(e[2]))
             elif e[0] == "connect":
-                b.connect(handles[e[1]], **{PNAMES[e[2]]: tgt(e[3])})
+                # the component by handle or by name; the source by handle, as a bare value, or looked up through an alias
+                src = b.node(nname(e[4])) if len(e) > 4 else tgt(e[3])
+                b.connect(nname(e[1]) if byname else handles[e[1]], **{PNAMES[e[2]]: src})
             elif e[0] == "addlit":
-                tgt.inline[e[1]] = e[2]         # the value reaches the builder in the connect() that follows
-            else:
+                tgt.inline[e[1]] = e[2]         # the value reaches the builder in the connect() / default_connection() that follows
+            elif e[0] == "alias":
                 b.alias(nname(e[1]), handles[e[2]])
+            elif e[0] == "clear":
+                b.clear_inputs(nname(e[1]) if byname else handles[e[1]])
+            elif e[0] == "replace":
+                nd = {"kind": "comp", "id": e[1], "params": e[2], "body": e[3]}
+                # (the node handed out before the replacement is no longer a member of the builder: a connection of the
+                # new component to itself is made with the new handle)
+                handles[e[1]] = b.replace_component(nname(e[1]) if byname else handles[e[1]], make_fn(interp, nd),
+                                                    **{PNAMES[p["name"]]: tgt(p["conn"]) for p in e[2] if p["conn"] not in (None, e[1])})
+                loops = {PNAMES[p["name"]]: handles[e[1]] for p in e[2] if p["conn"] == e[1]}
+                if loops:
+                    b.connect(handles[e[1]], **loops)
+            elif e[0] == "clone":
+                # carry on with a clone of the builder: it starts as a copy of the state
+                b = b.clone()
+                for i in list(handles):
+                    handles[i] = b.node(nname(i))
+            else:
+                # reading the builder does not change it (and must not change what a later build() checks)
+                try:
+                    {"hash": b.config_hash, "config": b.build_config, "meta": b.meta, "build": b.build, "validate": b.validate,
+                     "clone": b.clone}[e[1]]()
+                except PipelineError:
+                    pass
+        state = apply_edits(state, stg["edits"])
         try:
             if stg["pre"] == "hash":
                 b.config_hash()
@@ -763,7 +1003,7 @@ def run_stage(case, interp, b, runs, inject):
 def c_val(v):
     if v[0] in ("n", "j"):          # a str spelled like a node name / another JSON-ish object: not an int, not an array
         return f"(VStr {cz((N_OFF if v[0] == 'n' else J_OFF) + v[1])})"
-    ctor = {"i": "VInt", "b": "VInt", "s": "VStr", "f": "VArrF", "a": "VArrI"}[v[0]]
+    ctor = {"i": "VInt", "b": "VBool", "s": "VStr", "f": "VArrF", "a": "VArrI"}[v[0]]
     return f"({ctor} {cz(v[1])})"
 
 
@@ -852,7 +1092,17 @@ def c_edit(e):
         return f"(EConnect {cnat(e[1])} {cnat(e[2])} {cnat(e[3])})"
     if e[0] == "addlit":
         return f"(EAddLit {cnat(e[1])} ({c_node({'kind': 'inline', 'val': e[2]}, [])}))"
+    if e[0] == "clear":
+        return f"(EClear {cnat(e[1])})"
+    if e[0] == "replace":
+        return f"(EReplace {cnat(e[1])} {clist(e[2], c_bparam)} (body_of {c_bprog(e[3])}))"
+    assert e[0] == "alias", e
     return f"(EAlias {cnat(e[1])} {cnat(e[2])})"
+
+
+def model_edits(edits):
+    """reading the builder (hash, config, meta, build, validate, clone) is no edit of its state"""
+    return [e for e in edits if e[0] not in ("call", "clone")]
 
 
 def coq_term(case, obs):
@@ -870,7 +1120,7 @@ def coq_term(case, obs):
     # a builder history: the model applies the edits to the builder state and rebuilds
     stages = [f"([], {cbool(obs['built'])}, {runs})"]
     for stg, o in zip(case["stages"], obs["more"]):
-        stages.append(f"({clist(stg['edits'], c_edit)}, {cbool(o['built'])}, {c_runs(stg['runs'], o['runs'])})")
+        stages.append(f"({clist(model_edits(stg['edits']), c_edit)}, {cbool(o['built'])}, {c_runs(stg['runs'], o['runs'])})")
     return f"agree_history_gen {spec} {c_builder(case, [])} {clist(stages, str)}"
 
 
@@ -955,7 +1205,7 @@ def reference(case, run):
             return True
         if v is None:
             return nullable
-        return jval(v)[0] == KIND_TAG[kind]      # int / float64 array / int64 array
+        return jval(v)[0] in KIND_TAG[kind]      # int (a bool is one) / float64 array / int64 array / bool
 
     # Evaluation without a memo table of VALUES.  What a run does remember, because a body that catches the failure
     # of a lazy input can see it: a node that failed stays failed for the rest of the run (asking again gives the
@@ -963,6 +1213,7 @@ def reference(case, run):
     # optional consumer stays without a value (a requiring consumer gets the missing-input error).
     failed, skipped = set(), set()
     flags = {"caught": 0, "refused": 0}
+    consulted = reference.consulted = {}         # literal nodes some evaluated consumer (or the request) read -> value
 
     def ev(n, required, stack):
         if n in failed:
@@ -986,6 +1237,7 @@ def reference(case, run):
     def ev1(n, required, stack):
         nd = nodes[n]
         if nd["kind"] in ("literal", "inline"):
+            consulted[n] = nd["val"]
             return pyval(nd["val"])
         if nd["kind"] == "input":
             v = given.get(n)
@@ -1120,6 +1372,12 @@ def oracle_one(case, obs):
                 v.append(("executed-unneeded", f"run {k} ({nm}): components {extra} ran although no requested node consults them"))
             if want[0] == "values" and set(lg) != needed:
                 v.append(("needed-not-executed", f"run {k} ({nm}): executed {sorted(set(lg))}, needed {sorted(needed)}"))
+        if want[0] == "values" and o["state"] is not None:
+            # the state mapping of run_all holds every literal a needed node read, with the very value that was declared
+            st = {i: x for i, x in o["state"]}
+            for i, x in sorted(reference.consulted.items()):
+                if i not in st or st[i] != x:
+                    v.append(("literal-state", f"run {k}: literal node {i} was declared as {x}, the state of run_all has {st.get(i, 'no entry')}"))
         a = o["all"]
         if a[0] == "raised" and a[1][0] == "EComp":
             a = ["raised", a[1][:2]]
@@ -1169,9 +1427,11 @@ def counters(case, obs):
     yield f"builds-of-one-builder={len(views)}"
     for stg in case.get("stages", []):
         for e in stg["edits"]:
-            yield "edit=" + e[0]
+            yield "edit=" + e[0] + (":" + e[1] if e[0] == "call" else "-through-alias" if e[0] == "connect" and len(e) > 4 else "")
             if e[0] == "default" and any(d[0] == e[1] for d in case["defaults"]):
                 yield "edit=default-replaced-after-a-build"
+        if stg.get("closing"):
+            yield "cycle-closed-after-a-build-by=" + stg["closing"]
         if stg["pre"]:
             yield "pre-build-call=" + stg["pre"]
     for nd in case["nodes"]:
@@ -1204,6 +1464,14 @@ def counters_one(case, obs):
         yield "has-alias"
     if case.get("inject"):
         yield "cycle-injected-after-build"
+    held = [nd["val"] for nd in case["nodes"] if nd["kind"] in ("inline", "literal") and nd["val"] is not None]
+    kin = [family_of(v) for v in held if family_of(v)]
+    if any(kin.count(f) >= 2 for f in kin):
+        yield "equal-valued-literals-of-different-type"
+        w = _wiring(case)
+        fed = {s for ps in w.values() for s, *_ in ps}
+        if sum(1 for nd in case["nodes"] if nd["kind"] in ("inline", "literal") and family_of(nd["val"] or []) and nd["id"] in fed) >= 2:
+            yield "equal-valued-literals-of-different-type-both-consumed"
     names = {nname(nd["id"]) for nd in case["nodes"] if nd["kind"] != "inline"} | {nname(a) for a, _ in case["aliases"]}
     for nd in case["nodes"]:
         if nd["kind"] == "inline":
@@ -1251,6 +1519,15 @@ def shrink(case, fails):
     if _SHRUNK[0] > 5:
         return case
     c = copy.deepcopy(case)
+    # a builder history: drop the builds after the failing one, then the calls that only read the builder
+    while c.get("stages") and fails({**c, "stages": c["stages"][:-1]}):
+        c["stages"] = c["stages"][:-1]
+    for stg in c.get("stages", []):
+        for e in [e for e in stg["edits"] if e[0] in ("call", "clone")]:
+            cand = copy.deepcopy(c)
+            cand["stages"][c["stages"].index(stg)]["edits"] = [x for x in stg["edits"] if x is not e]
+            if fails(cand):
+                stg["edits"] = [x for x in stg["edits"] if x is not e]
     c["runs"] = common.shrink_list(c["runs"], lambda xs: bool(xs) and fails({**c, "runs": xs}), 30)
     for run in c["runs"]:
         for k in range(len(run["req"]) - 1, -1, -1):
